@@ -145,11 +145,15 @@ impl TaskTable {
     pub fn push(&mut self, task: crate::runtime::task::Task) {
         assert!(self.len < Self::CAPACITY, "verif-hooks: task table is limited to 4 tasks");
         let b = Some(Box::new(task));
-        match self.len {
-            0 => self.slots[0] = b,
-            1 => self.slots[1] = b,
-            2 => self.slots[2] = b,
-            _ => self.slots[3] = b,
+        // plain writes: the slot is empty, and an assignment would bring in the drop glue of `Task`
+        // (and with it every `dyn` destructor) for the old value
+        unsafe {
+            match self.len {
+                0 => std::ptr::write(&mut self.slots[0], b),
+                1 => std::ptr::write(&mut self.slots[1], b),
+                2 => std::ptr::write(&mut self.slots[2], b),
+                _ => std::ptr::write(&mut self.slots[3], b),
+            }
         }
         self.len += 1;
     }
